@@ -74,6 +74,18 @@ def _coro_pos(task):
     return tuple(out)
 
 
+def _other_tasks(loop, main):
+    """Positions of every other unfinished task of the loop (sub-tasks of a gather, request coroutines): sorted."""
+    import asyncio
+
+    out = []
+    for t in asyncio.all_tasks(loop):
+        if t is main or t.done():
+            continue
+        out.append((_coro_pos(t), getattr(t, "_must_cancel", None), getattr(t, "_fut_waiter", None) is not None))
+    return tuple(sorted(out, key=repr))
+
+
 def snapshot(sess, how):
     """Canonical state + enabled actions of a live session (called before teardown)."""
     RE = sess.RE
@@ -89,7 +101,9 @@ def snapshot(sess, how):
     cache = RE._msg_cache
     bundlers = tuple(
         sorted(
-            (repr(k), b.run_is_open, b.bundling, tuple(sorted(b._sequence_counters.items())), tuple(sorted(b._sequence_counters_copy.items())), len(b._monitor_params))
+            (repr(k), b.run_is_open, b.bundling, tuple(sorted(b._sequence_counters.items())), tuple(sorted(b._sequence_counters_copy.items())), len(b._monitor_params),
+             # what has been cached about the devices so far (the engine is mid-way through several awaits of one message)
+             tuple(len(getattr(b, a, ())) for a in ("_read_cache", "_describe_cache", "_describe_collect_cache", "_config_desc_cache", "_config_values_cache", "_config_ts_cache", "_descriptors")))
             for k, b in RE._run_bundlers.items()
         )
     )
@@ -117,6 +131,7 @@ def snapshot(sess, how):
         run_locals,
         (getattr(task, "_must_cancel", None), getattr(task, "_fut_waiter", None) is not None) if task is not None else None,
         tuple(loop.ready_names()),
+        _other_tasks(loop, task),
         tuple(loop.timer_offsets()),
         in_call is not None,  # which blocking call the caller sits in does not matter to the engine
         susp,
